@@ -35,7 +35,7 @@ RULE = ('seeded small worlds (1-4 segments, <=3 channels, optional index file, D
         'while a library-owned handle had been opened')
 EXPECTED_PROBES = ['eio:read-raised', 'corrupt:raised', 'corrupt:survived', 'foreign-index', 'close-with-suspended-generator',
                    'read-after-close:raised', 'read-after-close:cache-hit', 'writer-block-raises', 'writer-block-enospc', 'realfs-fd-check',
-                   'index-present', 'overlapping-files', 'open-fails:raised', 'writer-open-fails', 'interrupt:raised']
+                   'index-present', 'overlapping-files', 'open-fails:raised', 'writer-open-fails', 'interrupt:raised', 'writer-re-entered']
 ASSUMPTIONS = ['every open() call the library makes on a path is made to fail in turn (EMFILE for the data file, EACCES for the index file) in the path scenarios and in the TdmsWriter with-block; failures of seek()/tell() are not injected; a full disk (ENOSPC at every write event in turn) is injected for the TdmsWriter with-block only',
                'descriptors left open when TdmsFile.open(...) itself raises are not judged (the statement does not list it)']
 
@@ -669,6 +669,36 @@ def writer_block(case, res):
                 for v in vs:
                     v.sig.update(phase='writer', kind=sink)
                 out += vs
+        # one TdmsWriter object entered several times (an append-mode logger re-uses its writer): after EVERY with-block
+        # its descriptors are closed, whether the block ended normally or by an exception
+        res.sub_evals += 1
+        with store(record=False) as st:
+            nptdms = lib.nptdms
+            if sink == 'simpath':
+                target, idx = SIM_ROOT + 'o.tdms', True
+            else:
+                target, idx = st.fs.stream('o.tdms', 'w+b'), st.fs.stream('o.tdms_index', 'w+b')
+            wr = nptdms.TdmsWriter(target, mode='a', index_file=idx)
+            calls = prog['sessions'][0]
+            for round_no in range(3):
+                try:
+                    with wr:
+                        for call in calls[:2]:
+                            try:
+                                wr.write_segment(wgen.make_objects(nptdms, call))
+                            except Exception:
+                                pass
+                        if round_no == 2:
+                            raise KeyError('exception inside the with-block')
+                except KeyError:
+                    pass
+                res.probe('writer-re-entered')
+                vs = judge(st, res, 'with-block no. %d of one TdmsWriter object (%s)' % (round_no + 1, sink))
+                for v in vs:
+                    v.sig.update(phase='writer', kind=sink)
+                out += vs
+                if vs:
+                    break
     return out
 
 
